@@ -31,7 +31,8 @@ CONSTANTS AutoSet,    \* endpoints configured with auto-accept
           MaxOpenY,   \* ... endpoint Y
           MaxClose, MaxCut, MaxRec, MaxFail, MaxSub, MaxStall,
           KnownTags,  \* tags of panic arms / defects already recorded as findings
-          Mut         \* "none", or a seeded defect for the negative configurations of the self-test
+          Mut,        \* "none", or a seeded defect for the negative configurations of the self-test
+          Fixed       \* tags of recorded defects that are modelled as repaired (fix committed to the code)
 
 VARIABLES w, mon, hist
 vars == <<w, mon, hist>>
@@ -125,7 +126,9 @@ OnOpenSubstream(x, e) ==
   ELSE IF s.k = "vp" THEN Rep(x, e, "openfail")
   \* `_ => {}`: the command is dropped; with an inbound substream in progress and no outbound one the user
   \* hears of it again only if that substream gets as far as an accepted validation
-  ELSE IF s.k = "val" /\ s.out = "closed" THEN [x EXCEPT !.sw[e] = TRUE]
+  \* repaired ("ignored-open-never-answered" \in Fixed): the request is refused with OpenFailure(ValidationPending)
+  ELSE IF s.k = "val" /\ s.out = "closed" THEN
+       (IF "ignored-open-never-answered" \in Fixed THEN Rep(x, e, "openfail") ELSE [x EXCEPT !.sw[e] = TRUE])
   ELSE x
 
 \* on_connection_established
